@@ -258,7 +258,7 @@ func newCmap4(cm tables.CmapSubtable4) (cmap4, error) {
 		// some fonts use 0xFFFF for idRangeOff for the last segment
 		if entry.start != 0xFFFF && idRangeOffset != 0 {
 			// we resolve the indexes
-			entry.indexes = make([]tables.GlyphID, entry.end-entry.start+1)
+			entry.indexes = make([]tables.GlyphID, int(entry.end)-int(entry.start)+1) // as int, to avoid overflow
 			indexStart := idRangeOffset/2 + i - segCount
 			if indexStart < 0 || len(cm.GlyphIDArray) < 2*(indexStart+len(entry.indexes)) {
 				return nil, errors.New("invalid cmap subtable format 4 glyphs array length")
@@ -411,22 +411,25 @@ type cmap12 []tables.SequentialMapGroup
 
 func newCmap12(cm tables.CmapSubtable12) cmap12 { return sanitizeGroups(cm.Groups) }
 
-// sanitizeGroups removes the invalid groups with StartCharCode > EndCharCode,
-// which map no rune.
+// sanitizeGroups keeps the valid groups only: inside the Unicode range, with
+// StartCharCode <= EndCharCode, sorted and disjoint (as required by the binary
+// search in Lookup and by the rune coverage).
 func sanitizeGroups(groups []tables.SequentialMapGroup) []tables.SequentialMapGroup {
-	for i, group := range groups {
-		if group.StartCharCode > group.EndCharCode {
-			// uncommon case : copy the valid groups
-			out := append([]tables.SequentialMapGroup(nil), groups[:i]...)
-			for _, group := range groups[i+1:] {
-				if group.StartCharCode <= group.EndCharCode {
-					out = append(out, group)
-				}
-			}
-			return out
+	const maxRune = 0x10FFFF
+	out := make([]tables.SequentialMapGroup, 0, len(groups))
+	for _, group := range groups {
+		if group.EndCharCode > maxRune {
+			group.EndCharCode = maxRune
 		}
+		if group.StartCharCode > group.EndCharCode {
+			continue
+		}
+		if L := len(out); L != 0 && group.StartCharCode <= out[L-1].EndCharCode {
+			continue
+		}
+		out = append(out, group)
 	}
-	return groups
+	return out
 }
 
 type cmap12Iter struct {
